@@ -20,6 +20,9 @@ import IgVerif.Model.Comments
 import IgVerif.Model.Wrap
 import IgVerif.Model.Dispatch
 import IgVerif.Model.Literal
+import IgVerif.Model.EnumVal
+import IgVerif.Model.CharLit
+import IgVerif.Model.SkipScan
 /-! `igdriver <model>`: reads one op per line on stdin, prints one answer per line.
 Byte strings are hex ("-" = empty). -/
 open IgVerif
@@ -758,12 +761,37 @@ def dispatchStep (_ : Unit) (toks : List String) : IO (Unit × String) := do
 /-! ### lit -/
 def litStep (_ : Unit) (toks : List String) : IO (Unit × String) := do
   match toks with
+  | ["chr", h] => return ((), toString (Chr.charValue (unhex h)))
+  | ["skip", h] =>
+    let r := Skip.skipFalseIfBlock (unhex h)
+    let e := match r.1 with | .eof => "eof" | .els => "else" | .elif => "elif" | .elifdef => "elifdef" | .elifndef => "elifndef" | .endif => "endif"
+    let left := (match r.2.c with | some c => [c] | none => []) ++ r.2.rest
+    return ((), s!"{e} {hex left}")
   | ["lit", h] =>
     match Lit.getNumber (unhex h) with
     | some (v, k, rest) =>
       let ks := match k with | .hex => "hex" | .bin => "bin" | .oct => "oct" | .dec => "dec"
       return ((), s!"{v} {ks} {hex rest}")
     | none => return ((), "none")
+  | _ => return ((), "bad-op")
+
+/-- `enum - l5 s10 a10+2 -`: enumerators without initialiser (`-`), with a literal (`l`), with an
+opaque expression of the given value (`s`), with `expr + literal` (`a`) -/
+def enumStep (_ : Unit) (toks : List String) : IO (Unit × String) := do
+  match toks with
+  | "enum" :: items =>
+    let step := fun (acc : List (Option EnumVal.Ex) × List Int) (t : String) =>
+      let body := (t.drop 1).toString
+      if t == "-" then (acc.1 ++ [none], acc.2)
+      else if t.startsWith "l" then (acc.1 ++ [some (.lit body.toInt!)], acc.2)
+      else if t.startsWith "s" then (acc.1 ++ [some (.sym acc.2.length)], acc.2 ++ [body.toInt!])
+      else match body.splitOn "+" with
+        | [a, b] => (acc.1 ++ [some (.add (.sym acc.2.length) (.lit b.toInt!))], acc.2 ++ [a.toInt!])
+        | _ => acc
+    let (gs, env) := items.foldl step ([], [])
+    let ρ := fun i => env.getD i 0
+    let vals := (EnumVal.elements none gs).map (EnumVal.Ex.eval ρ)
+    return ((), " ".intercalate (vals.map toString))
   | _ => return ((), "bad-op")
 
 def main (args : List String) : IO UInt32 := do
@@ -788,4 +816,5 @@ def main (args : List String) : IO UInt32 := do
   | ["wrap"] => loop stdin wrapStep (); return 0
   | ["dispatch"] => loop stdin dispatchStep (); return 0
   | ["lit"] => loop stdin litStep (); return 0
+  | ["enum"] => loop stdin enumStep (); return 0
   | _ => IO.eprintln "usage: igdriver <model>"; return 2
